@@ -85,12 +85,12 @@ func flag(b bool, s string) string {
 }
 
 type c25Args struct {
-	AES    bool   `json:"aes,omitempty"`
-	Key    int    `json:"key,omitempty"`
-	UPW    string `json:"upw"`           // user password supplied / to set (encrypt)
-	OPW    string `json:"opw"`           // owner password supplied / to set (encrypt)
-	New    string `json:"new,omitempty"` // new password for change ops
-	Perm   int    `json:"perm,omitempty"`
+	AES  bool   `json:"aes,omitempty"`
+	Key  int    `json:"key,omitempty"`
+	UPW  string `json:"upw"`           // user password supplied / to set (encrypt)
+	OPW  string `json:"opw"`           // owner password supplied / to set (encrypt)
+	New  string `json:"new,omitempty"` // new password for change ops
+	Perm int    `json:"perm,omitempty"`
 }
 
 func (m *c25Model) Apply(s Step) bool {
